@@ -5,6 +5,7 @@ import (
 	"sort"
 	"strings"
 	"sync"
+	"sync/atomic"
 	"time"
 
 	"github.com/KevoDB/kevo/pkg/verifhook"
@@ -133,6 +134,7 @@ func runC04(c *core.Ctx, res *core.Result) {
 		}
 		mu.Unlock()
 	}
+	var busy atomic.Int64
 	var wg sync.WaitGroup
 	for cl := 0; cl < nclients; cl++ {
 		wg.Add(1)
@@ -227,7 +229,11 @@ func runC04(c *core.Ctx, res *core.Result) {
 				if rr.Chance(80) {
 					rec.Commit = true
 					if err := tx.Commit(); err != nil {
-						fail("Commit: " + err.Error())
+						if kv.IsEngineBusy(err) {
+							busy.Add(1) // an aborted transaction: it must have had no effect
+						} else {
+							fail("Commit: " + err.Error())
+						}
 						rec.Commit = false
 					}
 				} else {
@@ -244,6 +250,7 @@ func runC04(c *core.Ctx, res *core.Result) {
 		}(cl)
 	}
 	wg.Wait()
+	res.Count("commits_refused_by_engine", busy.Load())
 	verifhook.SetYield(0, 0)
 	feat := map[string]string{"clients": fmt.Sprint(nclients)}
 	if inline != "" {
